@@ -918,3 +918,5 @@ add("tree-08-skips-merging-empty-looking-sketches", ["C08"], "helpers",
 # ---------------------------------------------------------------------------
 from .mutants import seeded_mutants as _seeded_mutants
 CORPUS.extend(_seeded_mutants())
+from .mutants import refactor_variants as _refactor_variants
+CORPUS.extend(_refactor_variants())
